@@ -360,6 +360,18 @@ def record_traces(ctx):
 
 
 def validate_traces(ctx, traces):
+    # the binding must bite: a CANARY history - a recorded one whose first successful call reports one executed circuit too
+    # many - has to be rejected by the trace specification on every run
+    import copy
+
+    src = next((t for t in traces if t["events"] and t["events"][0]["out"] == "ok"), None)
+    if src is None:
+        raise TLCError("no recorded history starts with a successful call: cannot build the canary")
+    can = copy.deepcopy(src)
+    can["canary"] = True
+    can["events"] = can["events"][:1]
+    can["events"][0]["post"]["own"]["c"] += 1
+    traces = list(traces) + [can]
     path = os.path.join(ctx.tmp, "runner-traces.json")
     with open(path, "w") as f:
         json.dump(traces, f)
@@ -380,8 +392,13 @@ def validate_traces(ctx, traces):
     bad = {}
     for rj in rejects:
         bad.setdefault(rj["reject"], rj)
+    if len(traces) not in bad:
+        raise TLCError("binding self-test failed: RunnerTrace accepted the canary history (one executed circuit too many)")
+    ctx.by_kind["canary histories rejected by the trace specification"] = ctx.by_kind.get("canary histories rejected by the trace specification", 0) + 1
     for tid, rj in sorted(bad.items()):
         t = traces[tid - 1]
+        if t.get("canary"):
+            continue
         e = t["events"][rj["at"] - 1]
         ctx.violation(
             "trace:" + ",".join(sorted(rj["failed"])),
@@ -391,8 +408,9 @@ def validate_traces(ctx, traces):
         )
     if res.violated:
         ctx.violation("trace:property:" + ",".join(res.violated), "a recorded history violates %s\n%s" % (res.violated, "\n".join(res.trace[:40])), {"k": "traces", "traces": traces})
-    if not rejects and not res.violated and res.distinct != total:
-        raise TLCError("RunnerTrace explored %d states, expected %d" % (res.distinct, total))
+    expected = sum(len(t["events"]) + 1 for i, t in enumerate(traces) if (i + 1) not in bad) + sum(rj["at"] for rj in bad.values())
+    if not res.violated and res.distinct != expected:
+        raise TLCError("RunnerTrace explored %d states, expected %d" % (res.distinct, expected))
     ctx.traces_validated += len(traces) - len(bad)
     return res
 
